@@ -48,7 +48,12 @@ pub(crate) fn parse_allowed_timezone_formats(s: &str) -> Option<TimeZone> {
 #[inline]
 pub(crate) fn parse_identifier(source: &str) -> TemporalResult<TimeZone> {
     let mut cursor = source.chars().peekable();
-    if let Some(offset) = parse_offset(&mut cursor)? {
+    if let Some((offset, sub_minute)) = parse_offset_parts(&mut cursor)? {
+        // TimeZoneIdentifier ::: UTCOffset[~SubMinutePrecision]
+        if sub_minute {
+            return Err(TemporalError::range()
+                .with_message("A time zone identifier offset cannot have sub-minute precision."));
+        }
         return Ok(TimeZone::UtcOffset(UtcOffset(offset)));
     } else if parse_iana_component(&mut cursor) {
         return Ok(TimeZone::IanaIdentifier(source.to_owned()));
@@ -58,79 +63,65 @@ pub(crate) fn parse_identifier(source: &str) -> TemporalResult<TimeZone> {
 
 #[inline]
 pub(crate) fn parse_offset(chars: &mut Peekable<Chars<'_>>) -> TemporalResult<Option<i16>> {
-    if chars.peek().is_none() || !chars.peek().is_some_and(is_ascii_sign) {
+    Ok(parse_offset_parts(chars)?.map(|(minutes, _)| minutes))
+}
+
+/// Parses `UTCOffset[+SubMinutePrecision]` to the end of the input: `+HH`, `+HH:MM`, `+HHMM`,
+/// `+HH:MM:SS[.fraction]`, `+HHMMSS[.fraction]`. Returns the offset in minutes and whether a
+/// seconds part was present (only minute precision is kept).
+fn parse_offset_parts(chars: &mut Peekable<Chars<'_>>) -> TemporalResult<Option<(i16, bool)>> {
+    if !chars.peek().is_some_and(is_ascii_sign) {
         return Ok(None);
     }
 
     let sign = chars.next().map_or(1, |c| if c == '+' { 1 } else { -1 });
-    // First offset portion
     let hours = parse_digit_pair(chars)?;
-
     if !(0..24).contains(&hours) {
         return Err(TemporalError::range().with_message("Invalid offset hour value."));
+    }
+
+    // `+HH`
+    if chars.peek().is_none() {
+        return Ok(Some((hours * 60 * sign, false)));
     }
 
     let sep = chars.peek().is_some_and(|ch| *ch == ':');
     if sep {
         let _ = chars.next();
     }
+    // A separator must be followed by the minutes.
+    let minutes = parse_digit_pair(chars)?;
+    let result = (hours * 60 + minutes) * sign;
 
-    let digit_peek = chars.peek().map(|ch| ch.is_ascii_digit());
-
-    let minutes = match digit_peek {
-        Some(true) => parse_digit_pair(chars)?,
-        Some(false) => return Err(non_ascii_digit()),
-        None => 0,
-    };
-
-    if !(0..60).contains(&minutes) {
-        return Err(TemporalError::range().with_message("Invalid offset hour value."));
-    }
-
-    let result = Some((hours * 60 + minutes) * sign);
-
-    // We continue parsing for correctness, but we only care about
-    // minute precision
-
-    let next_peek = chars.peek();
-    match next_peek {
+    // Optional seconds, in the same (extended or basic) format as the minutes.
+    match chars.peek() {
+        None => return Ok(Some((result, false))),
         Some(&':') if sep => _ = chars.next(),
-        Some(&':') => {
+        Some(ch) if ch.is_ascii_digit() && !sep => {}
+        Some(_) => {
             return Err(TemporalError::range().with_message("offset separators do not align."))
         }
-        Some(_) => _ = parse_digit_pair(chars),
-        None => return Ok(result),
     }
+    let _seconds = parse_digit_pair(chars)?;
 
-    let potential_fraction = chars.next();
-    match potential_fraction {
-        Some(ch) if ch == '.' || ch == ',' => {
-            if !chars.peek().is_some_and(|ch| ch.is_ascii_digit()) {
-                return Err(
-                    TemporalError::range().with_message("fraction separator must have digit after")
-                );
-            }
-        }
+    // Optional fraction of one to nine digits.
+    match chars.next() {
+        None => return Ok(Some((result, true))),
+        Some(ch) if ch == '.' || ch == ',' => {}
         Some(_) => return Err(TemporalError::range().with_message("Invalid offset")),
-        None => return Ok(result),
     }
-
-    for _ in 0..9 {
-        let digit_or_end = chars.next().map(|ch| ch.is_ascii_digit());
-        match digit_or_end {
-            Some(true) => {}
-            Some(false) => {
-                return Err(TemporalError::range().with_message("Not a valid fractional second"))
-            }
-            None => break,
+    let mut digits = 0;
+    for ch in chars.by_ref() {
+        if !ch.is_ascii_digit() {
+            return Err(TemporalError::range().with_message("Not a valid fractional second"));
         }
+        digits += 1;
+    }
+    if !(1..=9).contains(&digits) {
+        return Err(TemporalError::range().with_message("Not a valid fractional second"));
     }
 
-    if chars.peek().is_some() {
-        return Err(TemporalError::range().with_message("Invalid offset"));
-    }
-
-    Ok(result)
+    Ok(Some((result, true)))
 }
 
 fn parse_digit_pair(chars: &mut Peekable<Chars<'_>>) -> TemporalResult<i16> {
@@ -206,7 +197,7 @@ fn is_slash(ch: &char) -> bool {
 }
 
 fn is_tz_leading_char(ch: &char) -> bool {
-    ch.is_alphabetic() || *ch == '.' || *ch == '_'
+    ch.is_ascii_alphabetic() || *ch == '.' || *ch == '_'
 }
 
 fn is_tz_char(ch: &char) -> bool {
